@@ -4,7 +4,7 @@
 # A detached git worktree of /repo's HEAD and a shadow harness manifest that points at it live
 # under a scratch directory (default /tmp/sens-scratch-$$), removed on exit.
 # usage: sens_scratch.sh [--seeded] [--out FILE] [name-substring ...]
-# env:   SENS_WORKERS (default 8)  SENS_SOFT_SECS (default 600: the full scenario count even on a busy machine)
+# env:   SENS_EXACT=1 (names must match exactly, not as substrings)  SENS_WORKERS (default 8)  SENS_SOFT_SECS (default 600: the full scenario count even on a busy machine)
 set -u
 MODE=sens
 OUT=
@@ -42,7 +42,7 @@ if [ $MODE = sens ]; then FILES=$(ls /verif/sensitivity/*.patch); else FILES=$(l
 fail=0
 for f in $FILES; do
   if [ $MODE = sens ]; then name=$(basename "$f" .patch); props=${name%%-*}; else d=$(dirname "$f"); name=$(basename "$d"); props=$(jq -r '(.check_properties // [.property]) | join(" ")' "$d/meta.json"); fi
-  if [ $# -gt 0 ]; then hit=0; for pat in "$@"; do case "$name" in *"$pat"*) hit=1;; esac; done; [ $hit = 1 ] || continue; fi
+  if [ $# -gt 0 ]; then hit=0; for pat in "$@"; do if [ -n "${SENS_EXACT:-}" ]; then [ "$name" = "$pat" ] && hit=1; else case "$name" in *"$pat"*) hit=1;; esac; fi; done; [ $hit = 1 ] || continue; fi
   if ! git -C "$WT" apply "$f" 2>/dev/null; then echo "$name APPLY-FAILED" | tee -a "$OUT.tmp"; fail=1; continue; fi
   blog=$(cd "$H" && cargo build --release --offline 2>&1); bcode=$?
   case " $props " in *" C09 "*|*" C12 "*)
